@@ -21,6 +21,9 @@ func panicKey(pi *core.PanicInfo) string {
 		val = val[:i]
 	}
 	val = reNumber.ReplaceAllString(val, "N")
+	if i := strings.Index(val, "out of range"); i >= 0 {
+		val = val[:i+len("out of range")]
+	}
 	val = strings.ReplaceAll(val, " [N] with length N", "")
 	val = strings.ReplaceAll(val, " [N:N]", "")
 	val = strings.ReplaceAll(val, " [:N] with capacity N", "")
